@@ -43,6 +43,8 @@ var pathAtoms = []atom{
 var queryAtoms = []atom{
 	{"", "", false}, {"?", "?", false}, {"?q=1", "?q=1", false}, {"?q=a b", "?q=a%20b", false}, {"?q=%0D%0AX-Inj:1", "?q=%0D%0AX-Inj:1", false}, {"?q=\n", "", true},
 	{"?q=a\x7fb", "", true}, {"?a=1&b=2", "?a=1&b=2", false},
+	// characters outside ASCII travel as they are written (the bytes of their UTF-8 form), as url.URL.RequestURI gives them
+	{"?name=caf\u00e9", "?name=caf\u00e9", false}, {"?t=\u20acuro&u=\u00fc b", "?t=\u20acuro&u=\u00fc%20b", false},
 }
 
 var fragAtoms = []atom{{"", "", false}, {"#f", "", false}, {"#\r\nX: y", "", true}}
@@ -389,7 +391,7 @@ func genericEntries(r *ev.Report) {
 func main() {
 	envaDir := enva.Reexec()
 	r := ev.New("C04", "exploration",
-		"E1a: full product scheme(6) x userinfo(3) x host(10, one of them refusing connections) x path(14) x query(8) x fragment(3) through url.Parse + jtp.Get: the single connection goes to the URL's host and port over TLS and the bytes written are exactly "+
+		"E1a: full product scheme(6) x userinfo(3) x host(10, one of them refusing connections) x path(14) x query(10) x fragment(3) through url.Parse + jtp.Get: the single connection goes to the URL's host and port over TLS and the bytes written are exactly "+
 			"request line + Host + Accept for the expected wire form of each component; non-https URLs open no connection. E1b-e: 18 hostile references x 4 sources through client.FetchUnknown, as Location / embedded reference / id of served documents through pub.New "+
 			"and every Tangible method, 154 webfinger handles through pub.FetchUserInput, and the UI's :open command typed byte by byte, with a generic oracle on every connection (TLS, four CRLF lines, no control bytes, origin-form target without blanks or fragment, "+
 			"Host matches the dial address, constant Accept); Env-A: a complete sub-product (2 schemes x 3 host spellings x 12 paths x 6 queries, with userinfo and fragment) over real TLS on a loopback port with a run-time CA and an in-process DNS responder: TLS first byte, SNI, exact bytes, resolver queries; distinct_nontrivial = judged requests with distinct inputs")
